@@ -217,8 +217,10 @@ def mirror_descr_tx(kind: int, dv: int, sv: int, mv: int, csv: int, val: str, se
     One descriptor transaction of the given kind (0 update alert condition Source (indexed), 1 update alert signal
     ConditionSignaled (indexed), 2 update metric descriptor + its state in one transaction, 3 create metric+state under ch0,
     4 delete a leaf metric, 5 delete the vmd subtree, 6 update of a context descriptor (its states are re-versioned),
-    7 create a channel with a child metric in one transaction).
-    pre: 0 <= kind <= 7
+    7 create a channel with a child metric in one transaction, 8 create TWO children under one existing parent (the parent is
+    bumped twice), 9 update the parent and create a child under it, 10 delete two children of one parent, 11 create a child
+    and then update the parent (reverse order)).
+    pre: 0 <= kind <= 11
     pre: dv >= 0
     pre: sv >= 0
     pre: mv >= 0
@@ -229,7 +231,7 @@ def mirror_descr_tx(kind: int, dv: int, sv: int, mv: int, csv: int, val: str, se
     """
     orc = Oracle()
     try:
-        target = {0: 'ac0', 1: 'asig0', 2: 'm0', 3: 'ch0', 4: 'm1', 5: 'vmd0', 6: 'lc0', 7: 'vmd0'}[kind]
+        target = {0: 'ac0', 1: 'asig0', 2: 'm0', 3: 'ch0', 4: 'm1', 5: 'vmd0', 6: 'lc0', 7: 'vmd0'}.get(kind, 'ch0')
         pm, cap, cm = _pair(dv, sv, mv, csv, target)
         notes = Notes(cm)
         exp_new, exp_upd, exp_del = [], [], []
@@ -272,6 +274,31 @@ def mirror_descr_tx(kind: int, dv: int, sv: int, mv: int, csv: int, val: str, se
                 d.SafetyClassification = pick(sel, (pm_types.SafetyClassification.INF, pm_types.SafetyClassification.MED_A,
                                                     pm_types.SafetyClassification.MED_B))
                 exp_upd = ['lc0']
+            elif kind in (8, 9, 11):
+                def _mk_metric(handle):
+                    nm = dc.StringMetricDescriptorContainer(handle, 'ch0')
+                    nm.Unit = pm_types.CodedValue('u')
+                    nm.MetricCategory = pm_types.MetricCategory.MEASUREMENT
+                    nm.MetricAvailability = pm_types.MetricAvailability.CONTINUOUS
+                    return nm, pm.data_model.get_state_class_for_descriptor(nm)(nm)
+                if kind == 9:
+                    d = tr.get_descriptor('ch0')
+                    d.SafetyClassification = pm_types.SafetyClassification.MED_B
+                nm, ns = _mk_metric('m8')
+                tr.add_descriptor(nm, state_container=ns)
+                exp_new = ['m8']
+                if kind == 8:
+                    nm2, ns2 = _mk_metric('m9')
+                    tr.add_descriptor(nm2, state_container=ns2)
+                    exp_new = ['m8', 'm9']
+                if kind == 11:
+                    d = tr.get_descriptor('ch0')
+                    d.SafetyClassification = pm_types.SafetyClassification.MED_B
+                exp_upd = None     # the parent may be named once or once per bump: only the final mirror state is demanded
+            elif kind == 10:
+                tr.remove_descriptor('m0')
+                tr.remove_descriptor('m1')
+                exp_del, exp_upd = ['m0', 'm1'], None
             else:
                 nch = dc.ChannelDescriptorContainer('ch9', 'vmd0')
                 nm = dc.StringMetricDescriptorContainer('m9', 'ch9')
@@ -285,7 +312,10 @@ def mirror_descr_tx(kind: int, dv: int, sv: int, mv: int, csv: int, val: str, se
         _deliver_all(cap, cm)
         _compare(pm, cm, orc, 'after')
         orc.check(notes.flat('new_descriptors_by_handle') == sorted(exp_new), 'notification-mismatch:new_descriptors_by_handle')
-        orc.check(notes.flat('updated_descriptors_by_handle') == sorted(exp_upd), 'notification-mismatch:updated_descriptors_by_handle')
+        if exp_upd is None:
+            orc.check(set(notes.flat('updated_descriptors_by_handle')) == {'ch0'}, 'notification-mismatch:updated_descriptors_by_handle')
+        else:
+            orc.check(notes.flat('updated_descriptors_by_handle') == sorted(exp_upd), 'notification-mismatch:updated_descriptors_by_handle')
         orc.check(notes.flat('deleted_descriptors_by_handle') == sorted(exp_del), 'notification-mismatch:deleted_descriptors_by_handle')
     except Exception as ex:  # noqa: BLE001
         return exc_result(orc, ex)
